@@ -110,6 +110,7 @@ type propFunc func(env *Env, rep *Report)
 var props = map[string]propFunc{}
 
 func main() {
+	vsched.MainStarted = true
 	prop := flag.String("prop", "", "property id")
 	tier := flag.String("tier", "quick", "quick|thorough")
 	shard := flag.String("shard", "0/1", "i/n")
